@@ -275,7 +275,14 @@ B("c03-revert-sort-key", ["C03", "C19"], "helpers.py", "    sorted_citations = s
 B("c03-no-filter-when-flag", ["C03"], "find.py", "    citations = filter_citations(citations)\n", "    if not remove_ambiguous:\n        citations = filter_citations(citations)\n", rule="R-C03-1")
 B("c03-append-after-filter", ["C03"], "find.py", "    if remove_ambiguous:\n        citations = disambiguate_reporters(citations)\n",
   "    if remove_ambiguous:\n        citations = disambiguate_reporters(citations)\n    citations.sort(key=lambda c: c.index)\n", rule="R-C03-1")
-B("c03-no-dedupe", ["C03", "C19"], "helpers.py", "    citations = list(\n        {citation.span(): citation for citation in citations}.values()\n    )\n", "    citations = list(citations)\n", rule="R-C03-3")
+_DD = '    by_span: dict = {}\n    for citation in citations:\n        kept = by_span.get(citation.span())\n        if (\n            kept is None\n            or not isinstance(citation, ReferenceCitation)\n            or isinstance(kept, ReferenceCitation)\n        ):\n            by_span[citation.span()] = citation\n    citations = list(by_span.values())\n'
+B("c03-no-dedupe", ["C03", "C19"], "helpers.py", _DD, "    citations = list(citations)\n", rule="R-C03-3")
+B("c03-revert-dedupe-preference", ["C03", "C19"], "helpers.py", _DD,
+  "    citations = list(\n        {citation.span(): citation for citation in citations}.values()\n    )\n", rule="R-C03-3")
+B("c03-dedupe-reference-wins", ["C03", "C19"], "helpers.py", "            or not isinstance(citation, ReferenceCitation)\n            or isinstance(kept, ReferenceCitation)\n",
+  "            or isinstance(citation, ReferenceCitation)\n            or isinstance(kept, ReferenceCitation)\n", rule="R-C03-3")
+N("c03-dedupe-benign-nested-ifs", ["C03", "C19"], "helpers.py", _DD,
+  "    by_span = {}\n    for citation in citations:\n        kept = by_span.get(citation.span())\n        if kept is not None and isinstance(citation, ReferenceCitation) and not isinstance(kept, ReferenceCitation):\n            continue\n        by_span[citation.span()] = citation\n    citations = list(by_span.values())\n")
 B("c03-drop-nonreference", ["C03", "C19"], "helpers.py", "            if isinstance(citation, ReferenceCitation):\n                continue\n\n            # Known overlap case",
   "            if isinstance(citation, (ReferenceCitation, ShortCaseCitation)):\n                continue\n\n            # Known overlap case")
 B("c03-pop-any-last", ["C03", "C19"], "helpers.py", "                    filtered_citations\n                    and isinstance(filtered_citations[-1], ReferenceCitation)\n                    and overlapping_citations(",
